@@ -696,6 +696,10 @@ func c10Termination(c *Ctx, scope []*ssa.Function) {
 				r.OK("O-5", key, c.P.Pos(loopPos(h)), how)
 				continue
 			}
+			if ok, how := drainLoop(c, q, h); ok {
+				r.OK("O-5", key, c.P.Pos(loopPos(h)), how)
+				continue
+			}
 			nBad++
 			r.Bad("O-5", key, c.P.Pos(loopPos(h)), "a loop that is neither a range loop nor a counted loop with a counter moving towards a fixed bound: nothing shows that it ends for every input")
 		}
@@ -1001,4 +1005,161 @@ func abs(x int) int {
 		return -x
 	}
 	return x
+}
+
+// drainLoop: `for l.Len() > k { ... }` over a container/list with k >= 0 that
+// the loop does not change, where every iteration removes an element of that
+// list (directly, or through a method that removes the list's back or front
+// element unless the list is empty — it is not: Len() > k >= 0). The length
+// goes down by one per iteration, so the loop ends.
+func drainLoop(c *Ctx, q *interval.Q, h *ssa.BasicBlock) (bool, string) {
+	fn := h.Parent()
+	iff, ok := h.Instrs[len(h.Instrs)-1].(*ssa.If)
+	if !ok {
+		return false, ""
+	}
+	op, x, y, okc := ssau.CondOf(iff.Cond)
+	if !okc {
+		return false, ""
+	}
+	if op == token.LSS {
+		x, y, op = y, x, token.GTR
+	}
+	lc, isCall := x.(*ssa.Call)
+	if !isCall || ssau.CallName(lc) != "(*container/list.List).Len" {
+		return false, ""
+	}
+	switch op {
+	case token.GTR:
+	case token.NEQ:
+		if k, isK := ssau.ConstInt(y); !isK || k != 0 {
+			return false, ""
+		}
+	default:
+		return false, ""
+	}
+	// the bound: a non-negative constant, or a field that only ever holds positive values
+	if k, isK := ssau.ConstInt(y); isK {
+		if k < 0 {
+			return false, ""
+		}
+	} else if iv := q.At(y, h); !(iv.LoOK && iv.Lo >= 0) {
+		o, f, _, isF := fieldLoad(y)
+		if !isF {
+			return false, ""
+		}
+		sx := symx.New(c.P.IsRepoFunc)
+		n := 0
+		for _, g := range shippedFuncs(c) {
+			bad := false
+			ssau.ForEachInstr(g, false, func(in ssa.Instruction) {
+				st, isSt := in.(*ssa.Store)
+				if !isSt {
+					return
+				}
+				fa, isFA := st.Addr.(*ssa.FieldAddr)
+				if !isFA || ssau.FieldOwner(fa) != o || ssau.FieldName(fa) != f {
+					return
+				}
+				n++
+				if iv := interval.New(sx.Of(g)).At(st.Val, st.Block()); !(iv.LoOK && iv.Lo >= 0) {
+					bad = true
+				}
+			})
+			if bad {
+				return false, ""
+			}
+		}
+		if n == 0 {
+			return false, ""
+		}
+	}
+	list := lc.Common().Args[0]
+	sameList := func(v ssa.Value) bool {
+		a, _, _, ok1 := fieldLoad(v)
+		b, _, _, ok2 := fieldLoad(list)
+		if ok1 && ok2 {
+			_, fa, _, _ := fieldLoad(v)
+			_, fb, _, _ := fieldLoad(list)
+			return a == b && fa == fb
+		}
+		return v == list
+	}
+	var removesAlways func(g *ssa.Function, unlessEmpty bool, d int) bool
+	removalBlocks := func(g *ssa.Function, isList func(ssa.Value) bool, d int) map[*ssa.BasicBlock]bool {
+		out := map[*ssa.BasicBlock]bool{}
+		ssau.ForEachInstr(g, false, func(in ssa.Instruction) {
+			call, ok := in.(*ssa.Call)
+			if !ok {
+				return
+			}
+			if ssau.CallName(call) == "(*container/list.List).Remove" && isList(call.Common().Args[0]) {
+				out[call.Block()] = true
+				return
+			}
+			if cal := call.Common().StaticCallee(); cal != nil && c.P.IsRepoFunc(cal) && len(cal.Blocks) > 0 && d < 3 {
+				if removesAlways(cal, true, d+1) {
+					out[call.Block()] = true
+				}
+			}
+		})
+		return out
+	}
+	anyList := func(v ssa.Value) bool {
+		_, f1, _, ok1 := fieldLoad(v)
+		_, f2, _, ok2 := fieldLoad(list)
+		return ok1 && ok2 && f1 == f2
+	}
+	removesAlways = func(g *ssa.Function, unlessEmpty bool, d int) bool {
+		barrier := removalBlocks(g, anyList, d)
+		if len(barrier) == 0 {
+			return false
+		}
+		cut := map[[2]int]bool{}
+		if unlessEmpty {
+			for _, i2 := range ssau.Ifs(g) {
+				o2, a, b, ok := ssau.CondOf(i2.Cond)
+				if !ok {
+					continue
+				}
+				if ssau.IsNilConst(a) {
+					a, b = b, a
+				}
+				bc, isC := a.(*ssa.Call)
+				if !isC || !ssau.IsNilConst(b) {
+					continue
+				}
+				if n := ssau.CallName(bc); n != "(*container/list.List).Back" && n != "(*container/list.List).Front" {
+					continue
+				}
+				switch o2 {
+				case token.EQL:
+					cut[[2]int{i2.Block().Index, 0}] = true
+				case token.NEQ:
+					cut[[2]int{i2.Block().Index, 1}] = true
+				}
+			}
+		}
+		for _, ret := range ssau.ReturnsOf(g) {
+			if barrier[ret.Block()] {
+				continue
+			}
+			if reachAvoidBB(g.Blocks[0], ret.Block(), cut, barrier) || (g.Blocks[0] == ret.Block()) {
+				return false
+			}
+		}
+		return true
+	}
+	barrier := removalBlocks(fn, sameList, 0)
+	if len(barrier) == 0 {
+		return false, ""
+	}
+	body := h.Succs[0]
+	if barrier[body] {
+		return true, "drain loop: every iteration removes one element of the list whose length is tested"
+	}
+	if reachAvoidBB(body, h, nil, barrier) {
+		return false, ""
+	}
+	return true, "drain loop: every iteration removes one element of the list whose length is tested"
 }
